@@ -165,6 +165,52 @@ theorem canonParams_perm (u u' : Uri) (hp : (queryPairs u').Perm (queryPairs u))
   intro a ha b hb h1 h2
   exact nodup_map_inj (·.1) _ hk' a ha b hb (strLt_total _ _ h1 h2)
 
+/-- joining with `&` keeps every part as a contiguous piece of the result -/
+theorem foldl_join_contains (p : Str) (ps : List Str) (x : Str) (hx : (∃ a b, p = a ++ x ++ b) ∨ x ∈ ps) :
+    ∃ pre post, ps.foldl (fun acc q => acc ++ ['&'] ++ q) p = pre ++ x ++ post := by
+  induction ps generalizing p with
+  | nil =>
+    rcases hx with ⟨a, b, h⟩ | h
+    · exact ⟨a, b, by simpa using h⟩
+    · cases h
+  | cons q qs ih =>
+    simp only [List.foldl_cons]
+    apply ih
+    rcases hx with ⟨a, b, h⟩ | h
+    · exact Or.inl ⟨a, b ++ ['&'] ++ q, by rw [h]; simp [List.append_assoc]⟩
+    · rcases List.mem_cons.mp h with h' | h'
+      · exact Or.inl ⟨p ++ ['&'], [], by rw [h']; simp [List.append_assoc]⟩
+      · exact Or.inr h'
+
+/-- **C04(g)** coverage of the query: for a query without the key+value collisions of finding F3, every
+pair occurs in the canonical parameter string, as `lower(key)=value` (or the bare lower-cased key when the
+value is empty) — so no parameter of such a query is left out of what is signed -/
+theorem coverage_query (u : Uri) (k v : Str) (hm : (k, v) ∈ queryPairs u)
+    (hd : ((queryPairs u).map fun kv => lower kv.1 ++ kv.2).Nodup) :
+    ∃ pre post, canonParams u = pre ++ (if v.isEmpty then lower k ++ v else lower k ++ ['='] ++ v) ++ post := by
+  have hk : (((queryPairs u).map fun kv => (lower kv.1 ++ kv.2, (lower kv.1, kv.2))).map (·.1)).Nodup := by
+    simpa [List.map_map, Function.comp_def] using hd
+  unfold canonParams
+  simp only []
+  rw [lastPerKey_nodup _ hk]
+  have hmem : (lower k ++ v, (lower k, v)) ∈ sortBy (fun a b => strLt a.1 b.1)
+      ((queryPairs u).map fun kv => (lower kv.1 ++ kv.2, (lower kv.1, kv.2))) :=
+    mem_sortBy _ _ _ (List.mem_map.mpr ⟨(k, v), hm, rfl⟩)
+  have hpart : (if v.isEmpty then lower k ++ v else lower k ++ ['='] ++ v) ∈
+      (sortBy (fun a b => strLt a.1 b.1) ((queryPairs u).map fun kv => (lower kv.1 ++ kv.2, (lower kv.1, kv.2)))).map
+        (fun kv => if kv.2.2.isEmpty then kv.1 else kv.2.1 ++ ['='] ++ kv.2.2) :=
+    List.mem_map.mpr ⟨_, hmem, rfl⟩
+  generalize (sortBy (fun a b => strLt a.1 b.1) ((queryPairs u).map fun kv => (lower kv.1 ++ kv.2, (lower kv.1, kv.2)))).map
+        (fun kv => if kv.2.2.isEmpty then kv.1 else kv.2.1 ++ ['='] ++ kv.2.2) = parts at hpart ⊢
+  cases parts with
+  | nil => cases hpart
+  | cons p ps =>
+    simp only []
+    refine foldl_join_contains p ps _ ?_
+    rcases List.mem_cons.mp hpart with h | h
+    · exact Or.inl ⟨[], [], by rw [← h]; simp⟩
+    · exact Or.inr h
+
 example : canonParams { path := ['/', 'p'], query := some ['b', '=', '2', '&', 'A', '=', '1'] } =
     canonParams { path := ['/', 'p'], query := some ['a', '=', '1', '&', 'b', '=', '2'] } := by decide
 example : (queryPairs { path := ['/', 'p'], query := some ['b', '=', '2', '&', 'A', '=', '1'] }).Perm
